@@ -10,7 +10,8 @@ EXPLANATION = (
     "terminators; (R2) a column encoded on write is decoded in every read view: the callers of the shared percent_decode "
     "helper cover the eager parser, the lazy accessor and the array-value iterators for INFO and for samples, and the "
     "writers of both columns call their encoder; (R3) the lone '.' escape is present in both string writers; (R4) the "
-    "variant span has one provided implementation that neither record type overrides.")
+    "variant span has one provided implementation that neither record type overrides."
+    " (R5) reused destination: every entry->Ok path of the eager VCF parser overwrites or clears each RecordBuf column (samples are reset element-wise and are tabled as not decided); (R6) append-buffer discipline for all VCF line readers.")
 ASSUMPTIONS = ["percent-encoding crate encodes exactly the bytes in the AsciiSet (plus non-ASCII) and decodes %XX",
                "reader delimiter constants are the named DELIMITER/SEPARATOR consts of the reader modules (floor-checked)"]
 NOT_DECIDED = ["value equality over the VCF grammar (numbers, floats, genotype strings, header records)",
